@@ -30,10 +30,18 @@ end
 
 def Stk.skel (s : Stk) : Val := .stk .native { kind := s.cfg.kind } (skelElems s.xs)
 
-/-- labels compared case-insensitively: upper-case the first entry of every row -/
-partial def upperLabels : Val → Val
-  | .anys (.leaf (.str l) :: rest) => .anys (.leaf (.str (l.map goUpper)) :: rest.map upperLabels)
-  | .anys xs => .anys (xs.map upperLabels)
+mutual
+/-- labels compared case-insensitively: upper-case the first entry of every row
+(structurally recursive, so that it can be reasoned about; same function as the earlier
+`partial def` with `rest.map upperLabels`) -/
+def upperLabels : Val → Val
+  | .anys (.leaf (.str l) :: rest) => .anys (.leaf (.str (l.map goUpper)) :: upperLabelsL rest)
+  | .anys xs => .anys (upperLabelsL xs)
   | v => v
+
+def upperLabelsL : List Val → List Val
+  | [] => []
+  | x :: rest => upperLabels x :: upperLabelsL rest
+end
 
 end Stackage
